@@ -1,6 +1,6 @@
 ---------------------------- MODULE MC_Deep ----------------------------
 (* Refinement of the deep pipeline and of the conversions between the two forms (C02, C03).              *)
-EXTENDS DeepImpl, Gen, Tables
+EXTENDS DeepImpl, Gen, Tables, Grammar
 CONSTANTS T, NLeaves, MaxUn, WithConst, Shard, NShards
 VARIABLE tree
 Init == tree \in ShardTrees(T, NLeaves, MaxUn, WithConst, Shard, NShards)
@@ -27,4 +27,16 @@ DeepenRefines ==
     IN /\ Same(T, DEval(d), tree)
        /\ Same(T, Eval(Flatten(d)), tree)
        /\ Same(T, DEval(Deepen(T, Flatten(d))), tree)
+(* Printing (C12): the text of the deep form - parsed, compiled; and rebuilt from the flat form, one operator per     *)
+(* level - lexes and parses back to the expression that was printed.  Folded numbers are spelled as the literal 9.   *)
+Nine == <<57>>
+PrintsBack(e) ==
+  LET d == Den(T, Unparse(T, e, Nine, TRUE)) IN d.st = "ok" /\ Same(T, d.den, DEval(Respell(e, Nine)))
+UnparseRefines ==
+  /\ \A m \in {"min", "full", "ucall"} : PrintsBack(DParse(T, Toks(m)).e)
+  /\ \A c \in BOOLEAN : PrintsBack(Deepen(T, ParseFlat(T, Toks("min"), c)))
+\* the pinned snapshot (no blanks around alphabetic operator names) does not have the property: witness for F7
+UnparseRefinesPinned ==
+  \A m \in {"min"} : LET e == DParse(T, Toks(m)).e
+                           d == Den(T, Unparse(T, e, Nine, FALSE)) IN d.st = "ok" /\ Same(T, d.den, DEval(Respell(e, Nine)))
 =============================================================================
